@@ -71,7 +71,7 @@ func parentSetup(tier string, seed int64, work string) ([]string, error) {
 	return []string{"VERIF_CLI=" + p, "VERIF_CLI_DD=" + dd, "VERIF_ZCHECK=" + z}, nil
 }
 
-var classes = []string{"one-byte", "zeros", "incompressible", "text", "repetitive", "max-size", "random-size"}
+var classes = []string{"one-byte", "zeros", "incompressible", "text", "repetitive", "max-size", "random-size", "already-compressed", "magic-prefix"}
 
 func makeChunk(c *harness.Ctx, class string) []byte {
 	rng := c.Rng
@@ -88,6 +88,23 @@ func makeChunk(c *harness.Ctx, class string) []byte {
 		return []byte(strings.Repeat("the quick brown fox jumps over the lazy dog\n", 1+rng.Intn(800)))
 	case "repetitive":
 		return dsu.MakeBlob(rng, "repetitive", 5000+rng.Intn(50000), dsu.Sizes{Min: 64, Avg: 128, Max: 256})
+	case "already-compressed":
+		// the chunk content is itself a compressed file (the first chunk of any .zst / .gz / .xz blob)
+		inner := []byte(strings.Repeat("inner payload ", 1+rng.Intn(3000)))
+		switch rng.Intn(3) {
+		case 0:
+			z, _ := desync.Compress(inner)
+			return z
+		case 1:
+			return append([]byte{0x1f, 0x8b, 0x08, 0}, inner...)
+		}
+		return append([]byte{0xfd, '7', 'z', 'X', 'Z', 0}, inner...)
+	case "magic-prefix":
+		// starts with the magic number of the store's own compression format, followed by anything
+		b := make([]byte, 4+rng.Intn(5000))
+		rng.Read(b)
+		copy(b, []byte{0x28, 0xb5, 0x2f, 0xfd})
+		return b
 	case "max-size":
 		b := make([]byte, 262144)
 		rng.Read(b[:rng.Intn(len(b))])
